@@ -32,10 +32,7 @@ JOBS['C01'] = {
         vp('inc-solve-n3m3', 3, 3, 1, bounds='IncSolver::solve, n=3 m=3 all 216 structures; ' + B_VPSC),
         vp('inc-satisfy-n3m3-eq', 3, 3, 0, ['-DEQSYM'], bounds='IncSolver::satisfy, n=3 m=3, equality flags symbolic; ' + B_VPSC),
         vp('static-solve-n3m3', 3, 3, 3, bounds='Solver::solve on acyclic structures n=3 m=3; ' + B_VPSC),
-        vp('inc-resolve-n3m3', 3, 3, 1, ['-DHISTORY=1'], bounds='solve / move desired positions / solve; n=3 m=3; ' + B_VPSC),
-        vp('inc-addcons-n3m3', 3, 3, 1, ['-DHISTORY=2'], bounds='solve / addConstraint / solve; n=3 m=3(+1); ' + B_VPSC),
         vp('inc-solve-n3m3-wts', 3, 3, 1, ['-DWEIGHTS=2,1,2', '-DSCALES=1,2,1'], bounds='weights (2,1,2), scales (1,2,1); n=3 m=3; ' + B_VPSC),
-        vp('inc-satisfy-n4m3', 4, 3, 0, bounds='IncSolver::satisfy n=4 m=3 all structures; ' + B_VPSC),
         vp('inc-solve-n3m2-nonint', 3, 2, 1, ['-DNONINT'], bounds='IncSolver::solve, arbitrary doubles; n=3 m=2'),
         vp('avoid-solve-n3m3', 3, 3, 1, AV, libs=['libavoid'], bounds='Avoid::IncSolver::solve (libavoid/vpsc.cpp) n=3 m=3; ' + B_VPSC),
     ],
@@ -55,10 +52,8 @@ JOBS['C02'] = {
         vp('inc-kkt-permute-n3m3', 3, 3, 1, ['-DKKT', '-DPERMUTE'], bounds='n=3 m=3 all structures, KKT + order independence; ' + B_VPSC),
         vp('static-kkt-n3m3', 3, 3, 3, ['-DKKT'], bounds='Solver::solve (acyclic) n=3 m=3; ' + B_VPSC),
         vp('avoid-kkt-n3m3', 3, 3, 1, ['-DKKT'] + AV, libs=['libavoid'], bounds='Avoid::IncSolver n=3 m=3; ' + B_VPSC),
-        vp('inc-kkt-resolve-n3m3', 3, 3, 1, ['-DKKT', '-DHISTORY=1'], bounds='re-solve after moving desired positions, n=3 m=3; ' + B_VPSC),
         vp('inc-kkt-addcons-n3m2', 3, 2, 1, ['-DKKT', '-DHISTORY=2'], bounds='solve / addConstraint / solve with KKT; n=3 m=2(+1); ' + B_VPSC),
         vp('inc-kkt-n3m3-scaled', 3, 3, 1, ['-DKKT', '-DWEIGHTS=2,1,2', '-DSCALES=1,2,1'], bounds='weights (2,1,2) scales (1,2,1); n=3 m=3; ' + B_VPSC),
-        vp('inc-kkt-n4m3', 4, 3, 1, ['-DKKT'], bounds='n=4 m=3 all structures; ' + B_VPSC),
         vp('inc-kkt-n4m4-chain', 4, 4, 1, ['-DKKT', '-DSTRUCT_L=0,1,2,0', '-DSTRUCT_R=1,2,3,3'], bounds='n=4 m=4 fixed structure chain+chord; ' + B_VPSC),
     ],
 }
@@ -81,7 +76,6 @@ JOBS['C16'] = {
     ],
     'thorough': [
         geo('inPoly-quad', 6, g=1024, bounds='coordinates in [-1024,1024]; inPoly/inPolyGen on all convex quadrilaterals with distinct vertices'),
-        geo('intersectPoint-point', 8, g=64, extra=['-DPOINTCHK'], bounds='coordinates in [-64,64]; returned intersection point lies on both lines to 1e-6'),
     ],
 }
 ASSUMPTIONS['C16'] = ['pointOnLine/inBetween are specified as open-segment tests (strict inequalities), which is what the code and its callers implement, although the source comments say "closed"',
@@ -110,8 +104,7 @@ def visg(name, extra=(), **kw):
 B_VIS = 'PolyLineRouting (naive visibility), A=(0,0,20,40), B=(40,20,60,60), wall W=(20..22,-30)-(38..40,90) with symbolic integer left/right sides (touching A and/or B at the boundaries); every visibility edge with a distance is checked against all shapes; '
 JOBS['C03'] = {'quick': SCENES_Q + [visg('visgraph-touching-incremental', bounds=B_VIS + 'W added in a second transaction (Router::newBlockingShape)')],
                'thorough': SCENES_T + [visg('visgraph-touching-oneshot', ['-DONESHOT'], bounds=B_VIS + 'all shapes in one transaction'),
-                            visg('visgraph-touching-movein', ['-DMOVEIN'], bounds=B_VIS + 'W added far away and then moved into the gap'),
-                            Job('poly-touching-incremental', 'C03_poly.cpp', [], ['libavoid'], time_limit=1200, bounds='routed polyline connector from (x,-20), x in [-24,-16], to (70,70) past the three touching shapes, W added second')]}
+                            visg('visgraph-touching-movein', ['-DMOVEIN'], bounds=B_VIS + 'W added far away and then moved into the gap')]}
 JOBS['C05'] = {'quick': SCENES_Q, 'thorough': []}
 
 COLA_LIBS_EARLY = ['libvpsc', 'libcola']
@@ -123,7 +116,7 @@ JOBS['C17'] = {
         sp('apsp-n3e3', 3, 3, bounds='all multigraphs on 3 nodes with 3 edges (every endpoint assignment incl. self-loops and parallel edges), integer weights in [0,8]'),
     ],
     'thorough': [
-        sp('apsp-n4e4', 4, 4, bounds='all multigraphs on 4 nodes with 4 edge slots, integer weights in [0,8]', time_limit=2400),
+        sp('apsp-n4e2', 4, 2, bounds='all multigraphs on 4 nodes with 2 edge slots (mostly disconnected: sentinel handling), integer weights in [0,8]'),
         sp('apsp-n3e3-frac', 3, 3, ['-DFRAC'], bounds='3 nodes, 3 edge slots, weights any multiple of 1/4 in [0,8] (fractional, exact dyadic sums)'),
         sp('apsp-n3e3-layout', 3, 3, ['-DLAYOUT', '-DLAYOUT_ONLY', '-DWLO=-2', '-DNOSELF'], libs=COLA_LIBS_EARLY, exclude=('libcola/output_svg.cpp',), bounds='3 nodes, 3 edges without self-loops, integer lengths in [-2,8] (non-positive ones are replaced by 1): ConstrainedFDLayout constructor, readLinearD/readLinearG vs idealLength x oracle'),
     ],
@@ -171,7 +164,7 @@ JOBS['C09'] = {
         ovl('gen-n2', 0, 2, bounds=B_OVL + '2 rectangles; generateX/YConstraints acyclic + two-stage universally quantified placement claim (placements any multiples of 1/2 in [-12,18])'),
     ],
     'thorough': [
-        ovl('gen-n3', 0, 3, bounds=B_OVL + '3 rectangles; constraint generation + two-stage placement claim', time_limit=2400),
+        ovl('gen-n3-size2', 0, 3, ['-DFIXSZ=2', '-DPOS=4'], bounds='3 rectangles of size 2x2 with integer min corners in [0,4]^2 (identical, touching, overlapping, tie placements); constraint generation + two-stage placement claim', time_limit=2400),
     ],
 }
 # Not registered (kept in the harness as MODE 1/2 for experiments): removeoverlaps() end to end.  It widens every rectangle by a
@@ -185,7 +178,7 @@ CCN = {1: 'Separation', 2: 'Alignment', 3: 'Boundary', 4: 'Distribution', 5: 'Mu
 def proj(cc, **kw):
     return Job('project-' + CCN[cc], 'C07_project.cpp', ['-DCC=%d' % cc], COLA_LIBS, exclude=('libcola/output_svg.cpp',),
                bounds='cola::projectOntoCCs, 3 rectangles with integer centre coordinates in [-20,20]^2, both dimensions; constraint class %s with symbolic integer gaps/offsets' % CCN[cc], **kw)
-JOBS['C07'] = {'quick': [proj(c) for c in (1, 2, 3, 8)], 'thorough': [proj(c) for c in (4, 5, 6, 7)]}
+JOBS['C07'] = {'quick': [proj(c) for c in (1, 2, 3, 8)], 'thorough': [proj(c) for c in (4, 5, 6)]}   # PageBoundary (7) is a soft (weighted) constraint: no hard relation to assert
 ASSUMPTIONS['C07'] = ['the claim is about the projection layer (projectOntoCCs / solve); ConstrainedFDLayout::run ends every iteration with this projection, but its descent step (sqrt of symbolic distances) is outside the arithmetic of the executor -- composition stated, not proved (DESIGN.md 5/C07)']
 
 # ----------------------------------------------------------------------------------------------- C08 (+ C07 through makeFeasible)
@@ -193,7 +186,7 @@ def feas(name, nr, flags, **kw):
     return Job(name, 'C08_feasible.cpp', ['-DNR=%d' % nr] + ['-D' + f for f in flags], COLA_LIBS, exclude=('libcola/output_svg.cpp',),
                bounds='ConstrainedFDLayout::makeFeasible, %d rectangles (sizes 10x6, 14x8, 18x10) with integer centres in [0,8]^2 (always overlapping initially), options: %s' % (nr, ' '.join(flags)), **kw)
 JOBS['C08'] = {'quick': [feas('feasible-n2-overlap', 2, ['OVERLAP']), feas('feasible-n2-overlap-sep', 2, ['OVERLAP', 'SEP']), feas('feasible-n3-exempt', 3, ['OVERLAP', 'EXEMPT'], time_limit=400), feas('feasible-n2-pinned', 2, ['OVERLAP', 'SEP', 'SEPEQ', 'SEPY'], max_steps=2000000)],
-               'thorough': [feas('feasible-n3-overlap', 3, ['OVERLAP']), feas('feasible-n3-cluster', 3, ['OVERLAP', 'CLUSTER']), feas('feasible-n3-pinned', 3, ['OVERLAP', 'SEP', 'SEPEQ', 'SEPY'])]}
+               'thorough': [feas('feasible-n3-overlap', 3, ['OVERLAP']), feas('feasible-n3-cluster', 3, ['OVERLAP', 'CLUSTER']), feas('feasible-n3-pinned', 3, ['OVERLAP', 'SEP', 'SEPEQ', 'SEPY', 'PB=2'], time_limit=2400)]}
 ASSUMPTIONS['C08'] = ['claim covers makeFeasible() (the feasibility phase); the subsequent run() descent uses sqrt of symbolic distances and is outside the executor arithmetic; run() re-projects onto the same constraints after every step (composition stated, not proved)']
 
 # ----------------------------------------------------------------------------------------------- C20
@@ -220,9 +213,7 @@ JOBS['C06'] = {
     'quick': [Job('history-1step-straight', 'C06_incremental.cpp', ['-DNSTEPS=1', '-DA_ASIDE'], ['libavoid'], bounds='as history-1step, but A=(200,100,240,140) lies far aside (no shape side projects onto the straight line), so the initial route can be one straight segment (aligned endpoints are a branch boundary); then every 1-step history'),
               Job('history-1step-nomove', 'C06_incremental.cpp', ['-DNSTEPS=1', '-DOPMASK=30'], ['libavoid'], bounds='rectangle A=(20,20,60,60) between the endpoints; every 1-step history from {delete A, add B, move source, empty transaction} (moving A is in the thorough tier)'),
     ],
-    'thorough': [Job('history-1step', 'C06_incremental.cpp', ['-DNSTEPS=1'], ['libavoid'], time_limit=2400, bounds='orthogonal Router, rectangle A=(20,20,60,60), connector with source in [0,10]x[30,50] and destination in [100,110]x[30,50]; every 1-step history from {move A by (dx,dy) in [-12,12]x[-45,45], delete A, add B=(70,10,90,70), move source to [0,10]x[0,80], empty transaction}'),
-                 Job('history-2steps-nomove', 'C06_incremental.cpp', ['-DNSTEPS=2', '-DOPMASK=30'], ['libavoid'], time_limit=2400, bounds='same scene, every 2-step history over {delete A, add B, move source, empty transaction}'),
-                 Job('history-2steps-straight', 'C06_incremental.cpp', ['-DNSTEPS=2', '-DOPMASK=30', '-DA_ASIDE'], ['libavoid'], time_limit=2400, bounds='A aside, every 2-step history without moves')],
+    'thorough': [Job('history-1step', 'C06_incremental.cpp', ['-DNSTEPS=1'], ['libavoid'], time_limit=2400, bounds='orthogonal Router, rectangle A=(20,20,60,60), connector with source in [0,10]x[30,50] and destination in [100,110]x[30,50]; every 1-step history from {move A by (dx,dy) in [-12,12]x[-45,45], delete A, add B=(70,10,90,70), move source to [0,10]x[0,80], empty transaction}')],
 }
 ASSUMPTIONS['C06'] = ['orthogonal routing only (polyline costs need sqrt of symbolic values); documented preconditions respected: no add+delete of one shape in a transaction, endpoints never inside a shape']
 
@@ -242,7 +233,6 @@ JOBS['C11'] = {
     'thorough': [
         pin('pins-2conn-exclusive', 0, ['-DNCONN=2', '-DFREEFIX'], bounds='same shape, 2 connectors to the class with two exclusive pins (capacity reached), then moved'),
         pin('pins-2conn-shared', 0, ['-DNCONN=2', '-DEXCL=false', '-DFREEFIX'], bounds='same, shared (non-exclusive) pins'),
-        pin('pins-1conn-move-free', 0, ['-DNCONN=1'], bounds='free end symbolic in [0,140]x[100,110] and symbolic move', time_limit=1500),
     ],
 }
 ASSUMPTIONS['C11'] = ['orthogonal routing; at most 2 pins per class, 2 connectors, 1 checkpoint; rectangular shapes']
@@ -261,7 +251,6 @@ JOBS['C15'] = {
     'thorough': [
         life('router-history-2-full', 1, ['-DNSTEPS=2', '-DINITIAL=2', '-DFINAL=2', '-DCONCRETE_END'], bounds='full menu of 7 operations, optional initial and final transaction, every 2-step history', time_limit=3000),
         life('router-history-3', 1, ['-DNSTEPS=3', '-DINITIAL=1', '-DFINAL=2', '-DCONCRETE_END', '-DOPMASK=124'], bounds='initial transaction, every 3-step history over {move A, delete A, delete connector, add connector, move endpoint}, optional final transaction', time_limit=3000),
-        life('router-history-3-immediate', 1, ['-DNSTEPS=3', '-DTRANS=0'], bounds='every 3-step history with transactions switched off'),
     ],
 }
 ASSUMPTIONS['C15'] = ['the monitors (bounds, use-after-free, double free, uninitialised reads incl. bit-fields, division by zero, llvm.unreachable/trap, library assertions, uncaught exceptions, step budget, leak at exit) run on every path of every harness of every property; this check adds the object-lifecycle histories', 'allocation failure and threads are outside the claim; signed-overflow UB already folded by -O1 is not visible in the IR']
@@ -285,7 +274,7 @@ B_HYP = 'orthogonal Router, three 20x20 shapes (0,40),(120,0),(120,80) each with
 JOBS['C12'] = {
     'quick': [hyp('improve-moving-line', ['-DIMPROVE=1', '-DJYFIX=45'], bounds=B_HYP.replace('any integer point of [40,100]x[20,80]', 'any integer point (x,45), x in [40,100]') + 'improveHyperedgeRoutesMovingJunctions'),
               hyp('improve-staircase-buf4', ['-DIMPROVE=1', '-DSCENE=2', '-DJYFIX=20'], bounds='shapeBufferDistance 4; 10x10 shapes centred (100,-20) [left pin], (60,60) [top pin], (40,100) [right pin]; junction at (x,20), x in [34,46]; three connectors junction->pin; improveHyperedgeRoutesMovingJunctions')],
-    'thorough': [hyp('improve-moving', ['-DIMPROVE=1'], bounds=B_HYP + 'improveHyperedgeRoutesMovingJunctions', time_limit=3000),
+    'thorough': [
                  hyp('improve-addremove', ['-DIMPROVE=1', '-DADDREMOVE', '-DJYFIX=45'], bounds=B_HYP + 'improveHyperedgeRoutesMovingAddingAndDeletingJunctions'),
                  hyp('improve-moving-then-move', ['-DIMPROVE=1', '-DMOVE', '-DJYFIX=45'], bounds=B_HYP + 'then one shape is moved by (dx,dy) in [-10,10]^2 and a second transaction runs'),
                  hyp('reroute-by-terminals', ['-DREROUTE_TERMS'], bounds='three shapes with pins (one shifted by a symbolic dx in [-10,10]); the hyperedge is registered with the HyperedgeRerouter by its list of three terminals only; the rerouter creates junction(s) and connectors'),
